@@ -14,14 +14,18 @@ for path in sorted(glob.glob(os.path.join(ROOT, "seeded", "*", "meta.json"))):
             break
     first = re.sub(r"\s+", " ", first)[:170]
     checks = m.get("checks", {})
-    caught = ", ".join("%s" % c for c, r in checks.items() if r["exit"] == 1) or "-"
+    # a result obtained at an earlier commit of /verif than the last re-run is marked with *
+    last = m.get("rechecked_at_verif_commit")
+    caught = ", ".join("%s%s" % (c, "" if r.get("at_verif_commit", last) == last else "*")
+                       for c, r in checks.items() if r["exit"] == 1) or "-"
     missed = ", ".join("%s" % c for c, r in checks.items() if r["exit"] != 1)
     wit = ""
     for c, r in checks.items():
         if r["exit"] == 1 and r.get("first_witness"):
             wit = re.sub(r"\s+", " ", r["first_witness"])[:110]
             break
-    rows.append("| %s | %s | %s | %s | %s | %s |" % (m["id"], m["property"], first.replace("|", "/"), caught, missed or "-", wit.replace("|", "/")))
-print("| id | property | change (from the author's notes) | caught by (quick, seed 0) | ran, not caught | first witness |")
-print("|----|----------|-----------------------------------|---------------------------|-----------------|---------------|")
+    rows.append("| %s | %s | %s | %s | %s | %s | %s |" % (m["id"], m["property"], first.replace("|", "/"), caught, missed or "-",
+                                                 m.get("rechecked_at_verif_commit", "-"), wit.replace("|", "/")))
+print("| id | property | change (from the author's notes) | caught by (quick, seed 0; * = result of an earlier re-run) | ran, not caught | last re-run at /verif commit | first witness |")
+print("|----|----------|-----------------------------------|---------------------------|-----------------|------|---------------|")
 print("\n".join(rows))
